@@ -41,8 +41,8 @@ PROPS = {
     'C13': dict(conf=['par'], owned={'reject_iff_overlap', 'used_exact_circuit', 'used_exact_statement', 'vector'}, sites=('run', 'used'),
                 rule='parallel blocks with gate / sequential-block branches over 3 qubits named directly, through an alias or a '
                      'macro parameter, idle gates; non-trivial = distinct programs with a parallel block of >= 2 branches'),
-    'C15': dict(conf=['gates', 'struct'], owned={'as_str', 'by_str_order', 'views_agree', 'normalised', 'str_int_same'},
-                sites=('run', 'outparse'),
+    'C15': dict(conf=['gates', 'struct'], owned={'as_str', 'by_str_order', 'views_agree', 'normalised', 'str_int_same', 'freq_counts'},
+                sites=('run', 'outparse', 'rerun'),
                 rule='result views of every subcircuit and readout of the C03 and C08 runs; non-trivial = accepted programs'),
 }
 
@@ -131,6 +131,19 @@ def run_exec(job):
     if 'run' in job['sites']:
         obs = execrun.observe(lambda: run_jaqal_circuit(circ), seed=job['seed'])
         cases.append({'id': job['id'] + '/run', 'site': 'run', 'inp': inp, 'text': text, 'obs': obs, 'outs': []})
+    if 'rerun' in job['sites']:
+        # one job executed twice, the result views read in between (results accumulate in the subcircuit objects)
+        from jaqalpaq.emulator.unitary import UnitarySerializedEmulator
+        from jaqalpaq.core.algorithm import expand_macros, fill_in_let, expand_subcircuits
+
+        def twice():
+            job_ = UnitarySerializedEmulator()(expand_macros(fill_in_let(expand_subcircuits(circ))))
+            first = job_.execute()
+            for sc in first.subcircuits:
+                list(sc.relative_frequency_by_str.items()), list(sc.simulated_probability_by_str.items())
+            return job_.execute()
+        obs = execrun.observe(twice, seed=job['seed'])
+        cases.append({'id': job['id'] + '/rerun', 'site': 'rerun', 'inp': inp, 'text': text, 'obs': obs, 'outs': []})
     if 'used' in job['sites']:
         from jaqalpaq.core.algorithm import get_used_qubit_indices
         cases.append({'id': job['id'] + '/used', 'site': 'used', 'inp': inp, 'text': text, 'obs': dict(execrun.EMPTY_OBS), 'outs': [],
@@ -195,6 +208,13 @@ def main(prop, tier):
             w = f['witness']
             jobs.append({'id': 'witness/' + f['id'], 'prog': dict(passes.EMPTY_PROG, natives=passes.exact_natives()),
                          'text': w['text'], 'nv': w.get('nv', 0), 'nq': w.get('nq', 2), 'sites': spec['sites'], 'seed': 1})
+    if prop == 'C08':
+        # R7: the transcription of the implementation's walker refines the requirement and terminates
+        for w in range(1, 7):
+            cfg = ('SPECIFICATION Spec\nCONSTANTS\n Which = %d\n Fixed = TRUE\nINVARIANT Safety\nINVARIANT PrefixOK\n'
+                   'PROPERTY Termination\nCHECK_DEADLOCK FALSE\n' % w)
+            res = core.run_tlc('WalkAlg', cfg, wd, workers=1)
+            rep.add_model_check('WalkAlg[program %d, repaired algorithm] Safety PrefixOK Termination(liveness)' % w, res)
     rep.phase('tlc_enumeration')
     recs = [c for cs in core.pool_map(run_exec, jobs, chunksize=50) for c in cs]
     rep.phase('replay')
